@@ -625,6 +625,18 @@ def _chart_val_defaults():
     return out
 
 
+def _chart_boolean_elements():
+    """local names of the elements that dml-chart.xsd declares with type CT_Boolean everywhere they occur"""
+    from lxml import etree
+    xs = "{http://www.w3.org/2001/XMLSchema}"
+    root = etree.parse(os.path.join(core.REPO, "spec", "ISO-IEC-29500-4", "xsd", "dml-chart.xsd")).getroot()
+    types = {}
+    for el in root.iter(xs + "element"):
+        if el.get("name") and el.get("type"):
+            types.setdefault(el.get("name"), set()).add(el.get("type").split(":")[-1])
+    return {n for n, ts in types.items() if ts == {"CT_Boolean"}}
+
+
 def check_respelled_chart(tname):
     """A chart written by another producer may leave out every @val that equals its schema default: the chart part
     means the same and must read back as the same chart type."""
@@ -640,6 +652,17 @@ def check_respelled_chart(tname):
     defaults = _chart_val_defaults()
     removed = []
     cs = gf.chart._chartSpace
+    # xsd:boolean has two spellings per value and CT_Boolean/@val defaults to true: "1" may be left out, "0" may be
+    # written "false"
+    bools = _chart_boolean_elements()
+    for x in cs.iter():
+        if isinstance(x.tag, str) and x.tag.startswith("{%s}" % NS_C) and x.tag.rsplit("}", 1)[1] in bools:
+            if x.get("val") == "1":
+                del x.attrib["val"]
+                removed.append(x.tag.rsplit("}", 1)[1] + "=true(default)")
+            elif x.get("val") == "0":
+                x.set("val", "false")
+                removed.append(x.tag.rsplit("}", 1)[1] + "=false")
     for x in cs.iter():
         if not isinstance(x.tag, str) or not x.tag.startswith("{%s}" % NS_C) or not x.tag.endswith("Chart"):
             continue
